@@ -107,6 +107,10 @@ def ev(node, env, hook=None):
             base = ev(fn.value, env, hook)
             if isinstance(base, str):
                 return getattr(base, fn.attr)(*[ev(a, env, hook) for a in node.args])
+        if isinstance(fn, ast.Attribute) and fn.attr == 'decode':
+            base = ev(fn.value, env, hook)
+            if isinstance(base, (bytes, bytearray)):
+                return bytes(base).decode(*[ev(a, env, hook) for a in node.args])
         if isinstance(fn, ast.Attribute) and fn.attr in ('keys', 'values', 'items', 'get'):
             base = ev(fn.value, env, hook)
             if isinstance(base, dict):
